@@ -62,7 +62,9 @@ func loopEntry[T any](x T) T                     { return x }
 func exactCmpIF(i int64, f float64) int          { return 0 }
 func errIsCtx(err error) bool                    { return false }
 func sameSlice[T any](a, b []T) bool             { return len(a) == len(b) }
-func sameVal[T any](a, b T) bool                  { return true }
+func sameVal[T any](a, b T) bool                 { return true }
+func sameBase[T any](a, b []T) bool              { return true }
+func freshBase[T any](a []T) bool                { return true }
 func uninterp[T any](name string, args ...any) T { var z T; return z }
 func outCount() int                              { return 0 }
 func outFirst() any                              { return nil }
